@@ -108,12 +108,14 @@ def _arrays(case):
     return D, G, Q, w, cell
 
 
-def fit_impl(case, timeout=10, record=True):
+def fit_impl(case, timeout=10, record=True, est=None):
     """Fit through the public API with recording wrappers around the private helpers
-    (no source change).  Returns (estimator or None, record dict)."""
+    (no source change).  Returns (estimator or None, record dict).  With `est` an EXISTING
+    estimator object is (re-)fitted on the case's grid instead of a freshly constructed one."""
     import skmatter.neighbors._sparsekde as M
     from skmatter.neighbors import SparseKDE
     D, G, Q, w, cell = _arrays(case)
+    given = est
     rec = dict(locpop=[], grids=[])
     orig_lp, orig_bw = M._local_population, SparseKDE._bandwidth_estimation_from_localization
     orig_cov, orig_eff = M._covariance, M.effdim
@@ -152,13 +154,14 @@ def fit_impl(case, timeout=10, record=True):
                                      effdim=state.get("effdim")))
         return h, c
 
-    est = None
+    est = given
     old = signal.signal(signal.SIGALRM, _alarm)
     try:
         if record:
             M._local_population, M._covariance, M.effdim = lp, cov_, eff_
             SparseKDE._bandwidth_estimation_from_localization = bw
-        est = SparseKDE(D, w, metric_params=None if cell is None else {"cell_length": cell}, **case["kw"])
+        if given is None:
+            est = SparseKDE(D, w, metric_params=None if cell is None else {"cell_length": cell}, **case["kw"])
         signal.alarm(timeout)
         est.fit(G)
         signal.alarm(0)
@@ -390,6 +393,23 @@ def is_descriptor_mod_cell(case, x):
     return any(float(np.max(np.abs(pbc_delta(x, p, cell)))) == 0.0 for p in case["D"])
 
 
+def halfcell_tie(case, x, eps=1e-9):
+    """with a cell: some coordinate of x - p (p a grid point or a descriptor) is within eps cells of a
+    half-integer number of cells.  np.round then chooses between two images that are equally far in the
+    Euclidean sense but NOT in the Mahalanobis sense (non-diagonal inverse bandwidth), and the choice
+    (round-half-even) flips under a whole-cell shift: the comparison is ill-conditioned."""
+    if case["cell"] is None:
+        return False
+    c = np.asarray(case["cell"], float)
+    x = np.asarray(x, float)
+    for P in (case["G"], case["D"]):
+        v = (x[None, :] - np.asarray(P, float).reshape(len(P), -1)) / c[None, :]
+        fr = v - np.floor(v)
+        if np.any(np.abs(fr - 0.5) < eps):
+            return True
+    return False
+
+
 def predicted_nontermination(case, W):
     """fraction-of-points tuner: the target lim = W_i + 1/n is not below the total weight, so
     `while flocal < lim` cannot terminate (flocal < sum W for every finite sigma)"""
@@ -445,6 +465,8 @@ def oracle_invariance(case, rec, rng, what, rtol=1e-6, atol=1e-6, c2=None):
     for k, x in enumerate(case["Q"]):
         if is_descriptor_mod_cell(case, x) or is_descriptor_mod_cell(c2, c2["Q"][k]):
             continue
+        if halfcell_tie(case, x) or halfcell_tie(c2, c2["Q"][k]):
+            continue
         a, b = rec["scores"][k], r2["scores"][k]
         ncmp += 1
         if a == b:
@@ -453,3 +475,287 @@ def oracle_invariance(case, rec, rng, what, rtol=1e-6, atol=1e-6, c2=None):
             return ("log-density at query %d changes from %r to %r under %s" % (
                 k, a, b, c2["transform"]), "failed", c2)
     return None, ("ok" if ncmp else "skipped_no_query"), c2
+
+
+# ------------------------------------------------------------------------------ histories on ONE object
+# A history is a sequence of public operations on one estimator object:
+#   set   assignment of the public attributes (descriptors, weights, fspread/fpoints), written the way
+#         the constructor stores them
+#   fit   fit(G)
+#   score score_samples(Q) and score(Q)
+#   peek  reading bandwidth_ and _sample_weights
+# C17 speaks about "the" fitted estimator: after any history the statement must hold for the state
+# the LAST fit produced (Model/SparseKDEH.v: refit = fresh fit, caches coherent).
+def gen_grid(rng, D, cell, ng_target, gridmode):
+    G, tries = [], 0
+    while len(G) < ng_target and tries < 200:
+        tries += 1
+        if gridmode == "subset":
+            p = list(rng.choice(D))
+        else:
+            p = [_q(x + rng.gauss(0, 0.5)) for x in rng.choice(D)]
+        if all(np.linalg.norm(pbc_delta(p, g, cell)) > 1e-3 for g in G):
+            G.append(p)
+    return G
+
+
+def gen_queries(rng, D, G, nq):
+    Q = []
+    for _ in range(nq):
+        r = rng.random()
+        base = rng.choice(D)
+        if r < 0.25:
+            Q.append(list(base))
+        elif r < 0.45:
+            Q.append(list(rng.choice(G)))
+        elif r < 0.8:
+            Q.append([_q(x + rng.gauss(0, 0.7)) for x in base])
+        else:
+            Q.append([_q(x + rng.choice([-1, 1]) * rng.uniform(20, 60)) for x in base])
+    return Q
+
+
+def gen_kw(rng):
+    if rng.random() < 0.3:
+        return dict(fspread=rng.choice([0.01, 0.05, 0.2, 0.5, 1.0]))
+    return dict(fpoints=rng.choice([0.15, 0.3, 0.5, 0.8]))
+
+
+def gen_history(rng, quick):
+    """a base fit case followed by further set / fit / score / peek operations on the same object"""
+    base = gen_fit_case(rng, quick)
+    d, cell = base["d"], base["cell"]
+    cur = dict(D=base["D"], w=base["w"], kw=base["kw"], kind=base["kind"])
+    steps = [dict(op="fit", G=base["G"], gridmode=base["gridmode"])]
+    G = base["G"]
+
+    def scores(lo, hi):
+        for _ in range(rng.randint(lo, hi)):
+            if rng.random() < 0.2:
+                steps.append(dict(op="peek"))
+            steps.append(dict(op="score", Q=gen_queries(rng, cur["D"], G, rng.randint(1, 4))))
+    # a first fit is followed by 0..2 queries (0: the caches are still empty at the next fit)
+    steps_first = rng.choice([0, 1, 1, 2])
+    if steps_first:
+        steps.append(dict(op="score", Q=base["Q"]))
+        scores(steps_first - 1, steps_first - 1)
+    for _ in range(rng.randint(1, 2 if quick else 3)):
+        r = rng.random()
+        if r < 0.45:
+            what = rng.choice(["weights", "kw", "descriptors", "weights+kw"])
+            if what == "descriptors":
+                n = rng.randint(8, 28 if quick else 60)
+                cur["kind"] = rng.choice(KINDS)
+                cur["D"] = gen_cloud(rng, n, d, cur["kind"])
+                cur["w"] = None if rng.random() < 0.5 else [rng.randint(1, 16) / 8.0 for _ in range(n)]
+            if "weights" in what:
+                cur["w"] = [rng.randint(1, 16) / 8.0 for _ in range(len(cur["D"]))]
+            if "kw" in what:
+                cur["kw"] = gen_kw(rng)
+            steps.append(dict(op="set", D=cur["D"], w=cur["w"], kw=cur["kw"], what=what))
+        # the new grid: same number of grid points as before half of the time (stale per-grid data
+        # then has a compatible shape), possibly the very same grid again
+        r = rng.random()
+        gridmode = rng.choice(["subset", "subset", "points"])
+        if r < 0.15 and not (steps[-1]["op"] == "set" and "descriptors" in steps[-1]["what"]):
+            G2 = [list(g) for g in G]
+        else:
+            ng = len(G) if r < 0.6 else rng.randint(2, 7)
+            G2 = gen_grid(rng, cur["D"], cell, ng, gridmode)
+        G = G2
+        steps.append(dict(op="fit", G=G, gridmode=gridmode))
+        scores(1, 2)
+    return dict(part="H", d=d, cell=cell, D=base["D"], w=base["w"], kw=base["kw"], kind=base["kind"],
+                steps=steps)
+
+
+def history_fit_views(hist):
+    """the ordinary fit case (part F) each fit of the history amounts to on a fresh object:
+    (index of the fit step, case) with the queries asked before the next fit"""
+    cur = dict(D=hist["D"], w=hist["w"], kw=hist["kw"], kind=hist.get("kind", "blob"))
+    views = []
+    for k, st in enumerate(hist["steps"]):
+        if st["op"] == "set":
+            cur = dict(D=st["D"], w=st["w"], kw=st["kw"], kind=cur["kind"])
+        elif st["op"] == "fit":
+            views.append([k, dict(part="F", d=hist["d"], kind=cur["kind"], gridmode=st.get("gridmode", "points"),
+                                  D=cur["D"], G=st["G"], w=cur["w"], cell=hist["cell"], kw=cur["kw"], Q=[])])
+        elif st["op"] == "score" and views:
+            views[-1][1]["Q"] = views[-1][1]["Q"] + [list(x) for x in st["Q"]]
+    return [(k, c) for k, c in views]
+
+
+def _set_params(est, D, w, kw):
+    """assign the public attributes the way SparseKDE.__init__ stores them"""
+    D = np.array(D, dtype=float).reshape(len(D), -1)
+    est.descriptors = D
+    wts = np.array(w, dtype=float) if w is not None else np.ones(len(D))
+    est.weights = wts / np.sum(wts)
+    if "fspread" in kw:
+        est.fspread, est.fpoints = kw["fspread"], -1.0
+    else:
+        est.fspread, est.fpoints = -1.0, kw.get("fpoints", 0.15)
+
+
+def history_impl(hist, timeout=10):
+    """run the history on ONE estimator object through the public API; returns a list of observations,
+    one per step: fit -> the fit record (as fit_impl), score -> dict(scores, score), peek -> dict(H, W),
+    set -> {}.  Stops at the first step that raises (observation with 'error')."""
+    from skmatter.neighbors import SparseKDE
+    views = dict(history_fit_views(hist))
+    obs, est = [], None
+    d = hist["d"]
+    cell = None if hist["cell"] is None else np.array(hist["cell"], dtype=float)
+    for k, st in enumerate(hist["steps"]):
+        if st["op"] == "set":
+            try:
+                _set_params(est, st["D"], st["w"], st["kw"])
+                obs.append({})
+            except Exception as e:  # noqa
+                obs.append(dict(error=type(e).__name__, error_msg=str(e)[:300]))
+                break
+        elif st["op"] == "fit":
+            c = views[k]
+            if est is None:
+                est, r = fit_impl(c, timeout=timeout)
+            else:
+                e2, r = fit_impl(c, timeout=timeout, est=est)
+                if e2 is not None:
+                    r["weights"] = [float(x) for x in est.weights]
+            obs.append(r)
+            if "error" in r:
+                break
+        elif st["op"] == "score":
+            Qa = np.array(st["Q"], dtype=float).reshape(len(st["Q"]), d)
+            try:
+                s = est.score_samples(Qa)
+                obs.append(dict(scores=[float(x) for x in s], score=float(est.score(Qa))))
+            except Exception as e:  # noqa
+                obs.append(dict(score_error=type(e).__name__, score_error_msg=str(e)[:300]))
+                break
+        else:
+            try:
+                obs.append(dict(H=np.array(est.bandwidth_).tolist(), W=[float(x) for x in est._sample_weights]))
+            except Exception as e:  # noqa
+                obs.append(dict(error=type(e).__name__, error_msg=str(e)[:300]))
+                break
+    return obs
+
+
+def oracle_state(case, rec, tol=1e-9):
+    """C17, first sentence, on the fitted state of an estimator: labels are nearest grid points under
+    the (periodic) metric (exact rational arithmetic on the binary64 inputs; a label is accepted if
+    its distance is within `tol` of the minimum), member lists are the label classes, the grid weights
+    are the sums of the assigned normalised descriptor weights and total one."""
+    from fractions import Fraction as Fr
+    if "error" in rec or "labels" not in rec:
+        return None
+    D, G, cell = case["D"], case["G"], case["cell"]
+    n, ng = len(D), len(G)
+    w = [1.0] * n if case["w"] is None else case["w"]
+    tot = sum(Fr(x) for x in w)
+    nw = [Fr(x) / tot for x in w]
+    if len(rec["weights"]) != n or any(abs(Fr(a) - b) > Fr(1, 10 ** 12) for a, b in zip(rec["weights"], nw)):
+        return "the descriptor weights in use are not weights / sum(weights)"
+    lab = rec["labels"]
+    if len(lab) != n:
+        return "number of labels differs from the number of descriptors"
+
+    def dist(p, g):
+        t = Fr(0)
+        for k in range(len(p)):
+            dl = Fr(p[k]) - Fr(g[k])
+            if cell is not None:
+                c = Fr(cell[k])
+                q = dl / c
+                f = q.numerator // q.denominator
+                r = q - f
+                m = f if r < Fr(1, 2) else (f + 1 if r > Fr(1, 2) else (f if f % 2 == 0 else f + 1))
+                dl -= m * c
+            t += dl * dl
+        return t
+    for i in range(n):
+        row = [dist(D[i], g) for g in G]
+        j = lab[i]
+        if not (0 <= j < ng):
+            return "descriptor %d has label %d outside the grid" % (i, j)
+        if float(row[j] - min(row)) > tol * (1 + float(min(row))):
+            return "descriptor %d assigned to grid point %d at squared distance %.12g, nearest is at %.12g" % (
+                i, j, float(row[j]), float(min(row)))
+    if len(rec["members"]) != ng or len(rec["W"]) != ng:
+        return "member lists / grid weights do not have one entry per grid point"
+    for j in range(ng):
+        mem = [i for i in range(n) if lab[i] == j]
+        if rec["members"][j] != mem:
+            return "member list of grid point %d is not its label class" % j
+        if abs(Fr(rec["W"][j]) - sum((nw[i] for i in mem), Fr(0))) > Fr(1, 10 ** 12):
+            return "grid weight %d (%r) is not the sum of the assigned descriptor weights (%r)" % (
+                j, rec["W"][j], float(sum((nw[i] for i in mem), Fr(0))))
+    if abs(sum(Fr(x) for x in rec["W"]) - 1) > Fr(1, 10 ** 9):
+        return "grid weights do not total one"
+    return None
+
+
+def _same(a, b, rtol=1e-12):
+    a, b = np.asarray(a, dtype=float), np.asarray(b, dtype=float)
+    if a.shape != b.shape:
+        return False
+    with np.errstate(invalid="ignore"):
+        ok = (a == b) | (np.isnan(a) & np.isnan(b)) | (np.abs(a - b) <= rtol * np.maximum(np.abs(a), np.abs(b)))
+    return bool(np.all(ok))
+
+
+def oracle_history(hist, obs, fresh):
+    """The statement of C17 on the object after every step of the history.
+    fresh: {fit step index: record of a fresh estimator fitted on the same (parameters, grid)}.
+    Returns (property message or None, state-machine message or None, stats)."""
+    views = dict(history_fit_views(hist))
+    st = dict(fits=0, scores=0, refits=0, peeks=0, bw_checked=0)
+    cur_k, cur_c, cur_r = None, None, None
+    machine = None
+    for k, (step, o) in enumerate(zip(hist["steps"], obs)):
+        if step["op"] == "set":
+            if "error" in o:
+                return "assigning the public attributes raised %s" % o["error"], machine, st
+            continue
+        if step["op"] == "fit":
+            c = views[k]
+            c = dict(c, Q=[])
+            msg, bst = oracle_bandwidth(c, o)
+            st["bw_checked"] += bst["checked"]
+            if msg:
+                return "step %d (fit): %s" % (k, msg), machine, st
+            if "error" in o:
+                return None, machine, st           # outside the proviso; the history ends here
+            msg = oracle_state(c, o)
+            if msg:
+                return "step %d (fit): %s" % (k, msg), machine, st
+            st["fits"] += 1
+            st["refits"] += cur_k is not None
+            cur_k, cur_c, cur_r = k, c, o
+            f = fresh.get(k)
+            if machine is None and f is not None and "error" not in f:
+                for key in ("bandwidth", "W", "weights"):
+                    if not _same(o[key], f[key]):
+                        machine = "step %d: %s after re-fitting differs from a fresh estimator's" % (k, key)
+                        break
+                else:
+                    if o["labels"] != f["labels"] or o["members"] != f["members"]:
+                        machine = "step %d: labels / member lists after re-fitting differ from a fresh estimator's" % k
+            continue
+        if step["op"] == "peek":
+            if "error" in o:
+                return "step %d: reading bandwidth_ raised %s" % (k, o["error"]), machine, st
+            st["peeks"] += 1
+            if cur_r is not None and machine is None and not (_same(o["H"], cur_r["bandwidth"]) and _same(o["W"], cur_r["W"])):
+                machine = "step %d: bandwidth_ / grid weights changed without a fit" % k
+            continue
+        # score
+        c = dict(cur_c, Q=step["Q"])
+        r = dict(cur_r)
+        r.update(o)
+        msg = oracle_mixture(c, r)
+        if msg:
+            return "step %d (score_samples after %d fit(s) on this object): %s" % (k, st["fits"], msg), machine, st
+        st["scores"] += 1
+    return None, machine, st
